@@ -1487,7 +1487,7 @@ func ipamRandomScenario(k int, env string, skip map[string]bool) []vt.M {
 			cf["init"] = "takeover"
 		}
 		for j := 0; j < 1+rng.Intn(2); j++ {
-			sc = append(sc, vt.M{"a": "drift_remove", "k": rng.Intn(2), "j": rng.Intn(2), "fam": 6})
+			sc = append(sc, vt.M{"a": "drift_remove", "k": rng.Intn(2), "j": rng.Intn(2), "fam": []int{6, 6, 4}[rng.Intn(3)]})
 		}
 		if rng.Intn(3) != 0 {
 			sc = append(sc, vt.M{"a": "pod_create", "p": 4})
